@@ -367,8 +367,9 @@ def harness_build(domain, profile="release", rustflags=None):
     with Lock("cargo"):
         lock_src = os.path.join(REPO, "Cargo.lock")
         lock_dst = os.path.join(HARNESS, "Cargo.lock")
-        if not os.path.exists(lock_dst):
-            open(lock_dst, "w").write(open(lock_src).read())
+        if not os.path.exists(lock_dst) and os.path.exists(lock_src):
+            text = open(lock_src).read()
+            open(lock_dst, "w").write(text)
         cmd = ["cargo", "build", "--offline", "--quiet", "--bin", domain]
         if profile == "release":
             cmd.append("--release")
